@@ -349,7 +349,9 @@ def simulated_anneal_tree(
                             size=new_size0,
                         ),
                         new_order[2],
-                        legs=new_legs1,
+                        # n.b. the legs of the root are the output indices
+                        # in their declared order -> let the tree compute
+                        legs=None if len(p) == tree.N else new_legs1,
                         cost=new_cost1,
                         size=new_size1,
                     )
